@@ -5,6 +5,7 @@
 #include "spec.h"
 #include "ops.h"
 #include "jansson_model.h"
+#include "jwt_c.h"
 
 #ifdef VERIF_TU_JWT_VERIFY
 static jwt_claims_t __verify_claims(jwt_t *jwt);
@@ -204,5 +205,79 @@ DECL___verify_config_post(contract_C04___verify_config_post, C04_VCP_CLAUSES);
 DECL___verify_config_post(contract_C14___verify_config_post, C14_VCP_CLAUSES);
 /* the conjunction, used by callers */
 DECL___verify_config_post(contract_all___verify_config_post, C02_VCP_CLAUSES C03_VCP_CLAUSES C04_VCP_CLAUSES C14_VCP_CLAUSES);
+
+/* ======================= token parsing ================================== */
+/* a document as json_loads returns it: a fresh object or array with one
+ * reference; its tracked member (if any) is a fresh node of any type */
+#define ENS_FRESH_DOC(p) \
+__CPROVER_ensures((p) == NULL || (__CPROVER_is_fresh(p, sizeof(json_t)) && (p)->refcount == 1 && \
+	((p)->type == JSON_OBJECT || (p)->type == JSON_ARRAY))) \
+__CPROVER_ensures((p) == NULL || (p)->tracked == NULL || ((p)->type == JSON_OBJECT && \
+	__CPROVER_is_fresh((p)->tracked, sizeof(json_t)) && (p)->tracked->refcount == 1 && (p)->tracked->tracked == NULL && \
+	(p)->tracked->type >= JSON_OBJECT && (p)->tracked->type <= JSON_NULL)) \
+__CPROVER_ensures((p) == NULL || (p)->tracked == NULL || (p)->tracked->type != JSON_STRING || \
+	(__CPROVER_is_fresh((p)->tracked->sval, g_vj_len_c + 1) && (p)->tracked->sval[g_vj_len_c] == 0))
+/* an empty object with one reference, as jwt_new() makes them */
+#define EMPTY_OBJ(p) (__CPROVER_is_fresh(p, sizeof(json_t)) && (p)->type == JSON_OBJECT && (p)->refcount == 1 && (p)->tracked == NULL)
+#define TRACKING_ALG KEY3(g_json_key, 'a', 'l', 'g')
+
+#ifdef VERIF_TU_JWT_VERIFY
+json_t *contract_jwt_base64uri_decode_to_json(char *src)
+__CPROVER_requires(src != NULL && __CPROVER_r_ok(src, 1))
+__CPROVER_requires(g_vj_len_c < 0x1000000)
+__CPROVER_assigns(g_json_loads_flags)
+ENS_FRESH_DOC(__CPROVER_return_value)
+/* C04: the JSON is decoded without NUL / duplicate tolerance flags */
+__CPROVER_ensures(__CPROVER_return_value != NULL ==> g_json_loads_flags == 0)
+;
+
+#define DECL_jwt_parse_head(NAME, CLAUSES) \
+int NAME(jwt_t *jwt, char *head) \
+__CPROVER_requires(__CPROVER_is_fresh(jwt, sizeof(*jwt))) \
+__CPROVER_requires(jwt->headers == NULL || EMPTY_OBJ(jwt->headers)) \
+__CPROVER_requires(head != NULL && __CPROVER_r_ok(head, 1)) \
+__CPROVER_requires(g_vj_len_c < 0x1000000 && KEY_IS_NAME3) \
+__CPROVER_requires(SPEC_ERRMSG_TERMINATED(jwt)) \
+__CPROVER_assigns(jwt->headers, jwt->alg, jwt->error, SPEC_ERRMSG_FRAME(jwt), g_json_loads_flags; \
+		  jwt->headers != NULL: __CPROVER_object_whole(jwt->headers)) \
+__CPROVER_frees(jwt->headers) \
+__CPROVER_ensures(__CPROVER_return_value == 0 || __CPROVER_return_value == 1) \
+ENS_FRESH_DOC(jwt->headers) \
+__CPROVER_ensures(__CPROVER_return_value == 0 ==> jwt->headers != NULL) \
+__CPROVER_ensures(SPEC_ERRMSG_TERMINATED(jwt)) \
+SPEC_ERR_MONOTONE(jwt) \
+CLAUSES
+/* C02/C06: success only for a JSON object whose "alg" is a string naming a known algorithm, exactly */
+#define C02_PH_CLAUSES \
+__CPROVER_ensures(__CPROVER_return_value == 0 ==> (jwt->headers->type == JSON_OBJECT && SPEC_ALG_KNOWN(jwt->alg))) \
+__CPROVER_ensures((__CPROVER_return_value == 0 && TRACKING_ALG) ==> \
+	(VJ_IS_STR(jwt->headers) && SPEC_NAME_IS(VJ_STR(jwt->headers), jwt->alg)))
+/* C14: every refusal is flagged and explained */
+#define C14_PH_CLAUSES \
+__CPROVER_ensures(__CPROVER_return_value != 0 ==> (jwt->error == 1 && jwt->error_msg[0] != 0)) \
+__CPROVER_ensures(__CPROVER_return_value == 0 ==> jwt->error == __CPROVER_old(jwt->error))
+DECL_jwt_parse_head(contract_C02_jwt_parse_head, C02_PH_CLAUSES);
+DECL_jwt_parse_head(contract_C14_jwt_parse_head, C14_PH_CLAUSES);
+DECL_jwt_parse_head(contract_all_jwt_parse_head, C02_PH_CLAUSES C14_PH_CLAUSES);
+
+#define DECL_jwt_parse_payload(NAME, CLAUSES) \
+int NAME(jwt_t *jwt, char *payload) \
+__CPROVER_requires(__CPROVER_is_fresh(jwt, sizeof(*jwt))) \
+__CPROVER_requires(jwt->claims == NULL || EMPTY_OBJ(jwt->claims)) \
+__CPROVER_requires(payload != NULL && __CPROVER_r_ok(payload, 1)) \
+__CPROVER_requires(g_vj_len_c < 0x1000000) \
+__CPROVER_requires(SPEC_ERRMSG_TERMINATED(jwt)) \
+__CPROVER_assigns(jwt->claims, jwt->error, SPEC_ERRMSG_FRAME(jwt), g_json_loads_flags; \
+		  jwt->claims != NULL: __CPROVER_object_whole(jwt->claims)) \
+__CPROVER_frees(jwt->claims) \
+__CPROVER_ensures(__CPROVER_return_value == 0 || __CPROVER_return_value == 1) \
+ENS_FRESH_DOC(jwt->claims) \
+__CPROVER_ensures(__CPROVER_return_value == 0 ==> jwt->claims != NULL) \
+__CPROVER_ensures(SPEC_ERRMSG_TERMINATED(jwt)) \
+SPEC_ERR_MONOTONE(jwt) \
+CLAUSES
+DECL_jwt_parse_payload(contract_C14_jwt_parse_payload, C14_PH_CLAUSES);
+DECL_jwt_parse_payload(contract_all_jwt_parse_payload, C14_PH_CLAUSES);
+#endif
 
 #endif
